@@ -44,7 +44,7 @@ struct Ctx
     std::vector<Sx> cbs;
     std::uint64_t raw_at(std::uint64_t pos) const { return pos < raw.size() ? raw[pos] : splitmix64(seed + pos); }
 };
-static Ctx* g_ctx = nullptr;
+static thread_local Ctx* g_ctx = nullptr;
 
 // random engine = position in the scripted stream of raw 64-bit draws
 struct script_engine
@@ -341,6 +341,31 @@ template <typename C> struct ScriptCb
     }
 };
 
+#ifdef VERIF_MPI
+// the MPI drivers' default callback type around the built-in callback, or a scripted decision
+template <typename C> struct MpiBuiltinCb
+{
+    hep::mpi_callback<C> inner;
+    bool operator()(MPI_Comm comm, C const& c)
+    {
+        bool const r = inner(comm, c);
+        g_ctx->cbs.push_back(Sx::list({Sx::num(c.results().size()), Sx::num(r ? 1 : 0)}));
+        return r;
+    }
+};
+template <typename C> struct MpiScriptCb
+{
+    std::vector<bool> script;
+    bool operator()(MPI_Comm, C const& c)
+    {
+        std::size_t n = c.results().size();
+        bool r = (n >= 1 && n - 1 < script.size()) ? script[n - 1] : true;
+        g_ctx->cbs.push_back(Sx::list({Sx::num(n), Sx::num(r ? 1 : 0)}));
+        return r;
+    }
+};
+#endif
+
 template <typename T> struct Spec
 {
     std::string kind; std::size_t dims = 1, channels = 1, mapdims = 1;
@@ -351,7 +376,66 @@ template <typename T> struct Spec
     std::string filename;
 };
 
-template <typename T, typename C, typename Mk> Sx run_ops(Spec<T>& sp, Sx const& ops, C chk, Mk run_one)
+#ifdef VERIF_MPI
+// one "mpi" operation: every rank (a thread) runs the MPI driver from the same checkpoint
+template <typename T, typename C, typename MkMpi> Sx run_mpi_op(Spec<T> const& sp, Sx const& op, C& chk, MkMpi run_mpi_one)
+{
+    std::vector<std::size_t> calls;
+    for (auto const& e : op.at(1).L_()) calls.push_back(e.N_());
+    int const world = static_cast<int>(op.at(2).N_());
+    std::vector<int> perm;
+    for (auto const& e : op.at(3).L_()) perm.push_back(static_cast<int>(e.N_()));
+    Ctx const base = *g_ctx;
+    std::vector<Ctx> ctxs(world, base);
+    std::vector<C> out(world, chk);
+    std::vector<char> done(world, 0);
+    std::ostringstream capture;
+    std::streambuf* old = std::cout.rdbuf(capture.rdbuf());
+    ::unlink(sp.filename.c_str());
+    shim_report rep;
+    try
+    {
+        rep = shim_run(world, perm, [&](int r) {
+            g_ctx = &ctxs[r];
+            g_ctx->cbs.clear(); g_ctx->events.clear();
+            Spec<T> mine = sp;                      // integrand and map objects are per rank
+            out[r] = run_mpi_one(mine, calls, chk);
+            done[r] = 1;
+            g_ctx = nullptr;
+        });
+    }
+    catch (...) { std::cout.rdbuf(old); throw; }
+    std::cout.rdbuf(old);
+    Sx res = Sx::list({Sx::sym("mpi")});
+    if (rep.hang) { res.add(Sx::list({Sx::sym("ub"), Sx::num(99)})); return res; }
+    if (rep.mismatch) { res.add(Sx::list({Sx::sym("ub"), Sx::num(98)})); return res; }
+    for (int r = 0; r != world; ++r)
+        if (!rep.errors[r].empty()) { res.add(Sx::list({Sx::sym("exception"), Sx::num(r), Sx::str(rep.errors[r])})); return res; }
+    // what reached standard output: lines "iteration k finished." (rank 0 only, verbose modes)
+    std::size_t printed = 0;
+    { std::istringstream in(capture.str()); std::string line; while (std::getline(in, line)) if (line.compare(0, 10, "iteration ") == 0) ++printed; }
+    std::ifstream file(sp.filename, std::ios::binary);
+    res.add(Sx::list({Sx::sym("printed"), Sx::num(printed)}));
+    res.add(Sx::list({Sx::sym("file"), Sx::num(file ? 1 : 0)}));
+    for (int r = 0; r != world; ++r)
+    {
+        Sx rk = Sx::list({Sx::sym("rank")});
+        Sx cbs = Sx::list({Sx::sym("cbs")}); for (auto const& e : ctxs[r].cbs) cbs.add(e);
+        rk.add(cbs);
+        if (base.trace) { Sx ev = Sx::list({Sx::sym("events")}); for (auto const& e : ctxs[r].events) ev.add(e); rk.add(ev); }
+        Sx co = Sx::list({Sx::sym("coll")});
+        for (auto const& c : rep.collectives[r]) co.add(Sx::list({Sx::num(static_cast<std::uint64_t>(c.count)), Sx::num(c.type == MPI_FLOAT || c.type == MPI_DOUBLE || c.type == MPI_LONG_DOUBLE ? 0 : 1)}));
+        rk.add(co);
+        rk.add(Sx::list({Sx::sym("dump"), e_chk<T>(out[r])}));
+        res.add(rk);
+    }
+    g_ctx->idx = ctxs[0].idx;
+    chk = out[0];
+    return res;
+}
+#endif
+
+template <typename T, typename C, typename Mk, typename MkMpi> Sx run_ops(Spec<T>& sp, Sx const& ops, C chk, Mk run_one, MkMpi run_mpi_one)
 {
     Sx out = Sx::list();
     for (auto const& op : ops.L_())
@@ -371,6 +455,9 @@ template <typename T, typename C, typename Mk> Sx run_ops(Spec<T>& sp, Sx const&
             if (g_ctx->trace || violation) { Sx ev = Sx::list({Sx::sym("events")}); for (auto const& e : g_ctx->events) ev.add(e); r.add(ev); }
             out.add(r);
         }
+#ifdef VERIF_MPI
+        else if (o == "mpi") out.add(run_mpi_op<T>(sp, op, chk, run_mpi_one));
+#endif
         else if (o == "rollback")
         {
             try { chk.rollback(op.at(1).N_()); out.add(Sx::list({Sx::sym("rollback"), Sx::sym("ok")})); }
@@ -451,7 +538,18 @@ template <typename T> Sx run_case(std::string const& cmd, Sx const& a)
         hep::integrand<T, Integrand<T>, false> i0(sp.f, sp.dims, sp.dists);
         result = run_ops<T>(sp, ops, chk, [&](std::vector<std::size_t> const& calls, C const& c) {
             if (with_dists) return sp.builtin ? hep::plain(i1, calls, c, bcb) : hep::plain(i1, calls, c, scb);
-            return sp.builtin ? hep::plain(i0, calls, c, bcb) : hep::plain(i0, calls, c, scb); });
+            return sp.builtin ? hep::plain(i0, calls, c, bcb) : hep::plain(i0, calls, c, scb); },
+            [&](Spec<T>& my, std::vector<std::size_t> const& calls, C const& c) {
+#ifdef VERIF_MPI
+            MpiBuiltinCb<C> mb{hep::mpi_callback<C>(modes[my.mode & 3], my.filename, my.target)}; MpiScriptCb<C> ms{my.script};
+            hep::integrand<T, Integrand<T>, true> j1(my.f, my.dims, my.dists);
+            hep::integrand<T, Integrand<T>, false> j0(my.f, my.dims, my.dists);
+            if (with_dists) return my.builtin ? hep::mpi_plain(MPI_COMM_WORLD, j1, calls, c, mb) : hep::mpi_plain(MPI_COMM_WORLD, j1, calls, c, ms);
+            return my.builtin ? hep::mpi_plain(MPI_COMM_WORLD, j0, calls, c, mb) : hep::mpi_plain(MPI_COMM_WORLD, j0, calls, c, ms);
+#else
+            (void) my; (void) calls; return c;
+#endif
+            });
     }
     else if (sp.kind == "vegas")
     {
@@ -464,7 +562,18 @@ template <typename T> Sx run_case(std::string const& cmd, Sx const& a)
         hep::integrand<T, Integrand<T>, false> i0(sp.f, sp.dims, sp.dists);
         result = run_ops<T>(sp, ops, chk, [&](std::vector<std::size_t> const& calls, C const& c) {
             if (with_dists) return sp.builtin ? hep::vegas(i1, calls, c, bcb) : hep::vegas(i1, calls, c, scb);
-            return sp.builtin ? hep::vegas(i0, calls, c, bcb) : hep::vegas(i0, calls, c, scb); });
+            return sp.builtin ? hep::vegas(i0, calls, c, bcb) : hep::vegas(i0, calls, c, scb); },
+            [&](Spec<T>& my, std::vector<std::size_t> const& calls, C const& c) {
+#ifdef VERIF_MPI
+            MpiBuiltinCb<C> mb{hep::mpi_callback<C>(modes[my.mode & 3], my.filename, my.target)}; MpiScriptCb<C> ms{my.script};
+            hep::integrand<T, Integrand<T>, true> j1(my.f, my.dims, my.dists);
+            hep::integrand<T, Integrand<T>, false> j0(my.f, my.dims, my.dists);
+            if (with_dists) return my.builtin ? hep::mpi_vegas(MPI_COMM_WORLD, j1, calls, c, mb) : hep::mpi_vegas(MPI_COMM_WORLD, j1, calls, c, ms);
+            return my.builtin ? hep::mpi_vegas(MPI_COMM_WORLD, j0, calls, c, mb) : hep::mpi_vegas(MPI_COMM_WORLD, j0, calls, c, ms);
+#else
+            (void) my; (void) calls; return c;
+#endif
+            });
     }
     else
     {
@@ -477,7 +586,18 @@ template <typename T> Sx run_case(std::string const& cmd, Sx const& a)
         hep::multi_channel_integrand<T, Integrand<T>, Map<T>, false> i0(sp.f, sp.dims, sp.map, sp.mapdims, sp.channels, sp.dists);
         result = run_ops<T>(sp, ops, chk, [&](std::vector<std::size_t> const& calls, C const& c) {
             if (with_dists) return sp.builtin ? hep::multi_channel(i1, calls, c, bcb) : hep::multi_channel(i1, calls, c, scb);
-            return sp.builtin ? hep::multi_channel(i0, calls, c, bcb) : hep::multi_channel(i0, calls, c, scb); });
+            return sp.builtin ? hep::multi_channel(i0, calls, c, bcb) : hep::multi_channel(i0, calls, c, scb); },
+            [&](Spec<T>& my, std::vector<std::size_t> const& calls, C const& c) {
+#ifdef VERIF_MPI
+            MpiBuiltinCb<C> mb{hep::mpi_callback<C>(modes[my.mode & 3], my.filename, my.target)}; MpiScriptCb<C> ms{my.script};
+            hep::multi_channel_integrand<T, Integrand<T>, Map<T>, true> j1(my.f, my.dims, my.map, my.mapdims, my.channels, my.dists);
+            hep::multi_channel_integrand<T, Integrand<T>, Map<T>, false> j0(my.f, my.dims, my.map, my.mapdims, my.channels, my.dists);
+            if (with_dists) return my.builtin ? hep::mpi_multi_channel(MPI_COMM_WORLD, j1, calls, c, mb) : hep::mpi_multi_channel(MPI_COMM_WORLD, j1, calls, c, ms);
+            return my.builtin ? hep::mpi_multi_channel(MPI_COMM_WORLD, j0, calls, c, mb) : hep::mpi_multi_channel(MPI_COMM_WORLD, j0, calls, c, ms);
+#else
+            (void) my; (void) calls; return c;
+#endif
+            });
     }
     ::unlink(sp.filename.c_str());
     ::unlink((sp.filename + ".tmp").c_str());
